@@ -234,11 +234,15 @@ PROPS = {
         "trust": [], "assumptions": ["acyclic is_a graphs"],
     },
     "C12": {
-        "subs": [sub("C12", "run_C12", "spec_C12", ["Run.C12"], 3000, 30000)],
-        "run_modules": ["C12"],
+        "subs": [sub("C12", "run_C12", "spec_C12", ["Run.C12"], 3000, 30000),
+                 sub("C12t", "run_C12t", "spec_C12t", W_IMPORTS + ["Run.C12t"], 200, 2000)],
+        "run_modules": ["C12", "C12t"],
         "rule": "seeded insertion histories / pairs of id lists (sizes 0-70 crossing the inline limit 30, equal, nested, "
                 "equal-length, disjoint) / constructor inputs; thorough adds all 65 536 pairs of subsets of an 8-element universe; "
-                "non-trivial = history with a repeated id and >= 2 members, or pair with non-empty intersection and strict union",
+                "non-trivial = history with a repeated id and >= 2 members, or pair with non-empty intersection and strict union; "
+                "C12t: ontologies of 2-12 terms (thorough up to 22) from every construction path, ALL ordered pairs of terms (both argument "
+                "orders, a term with itself, ancestor/descendant pairs, unrelated pairs), the four *_ancestor_ids queries and the four Combined "
+                "iterators against intersection / union of the dumped ancestor sets",
         "trust": ["slice::binary_search contract of std (sorted input => exact position)", "SmallVec storage not modelled"],
         "assumptions": ["groups are only built through the public constructors/operations (wf is preserved by all of them)"],
     },
